@@ -29,6 +29,9 @@ def loadModuleSkeleton : String :=
 def loadPackageSkeleton : String :=
   "(block (if _ (call (. v0 ignored) (slice v2 2 _ _)) (block (return nil)) _) (if _ (== v1 nil) (block (defer (call (. v1 Wait)))) _) (if _ (!= v5 nil) (block (return v5)) _) (range _ v6 v4 (block (switch _ _ (case ((call (. v6 IsDir))) (if _ (!= (call (. v6 Name)) \".dawn\") (block (if _ (!= v5 nil) (block (return v5)) _)) _)) (case ((== (call (. v6 Name)) \"BUILD.dawn\")) (call (. v1 Add) 1) (go (call (func (block (call (. v0 loadModule) nil (u& (lit (. label Label) (kv Kind \"module\") (kv Package v2) (kv Name \"BUILD.dawn\")))) (call (. v1 Done)))))))))) (return nil))"
 
+def reloadResets : List String :=
+  ["flags", "indexOnly", "modules", "targets"]
+
 def doneShape : List String :=
   ["set R.data,R.err", "R.m.Lock", "set R.loaded", "R.m.Unlock", "R.cond.Broadcast", "return"]
 
